@@ -272,7 +272,9 @@ def deep_obs(it, v, depth=0):
     if isinstance(v, dict):
         return ("dict", tuple((deep_obs(it, k, depth + 1), deep_obs(it, e, depth + 1)) for k, e in v.items()))
     if isinstance(v, float):
-        return ("float", v.hex())
+        import struct as _struct
+
+        return ("float", _struct.pack(">d", v).hex())  # the bit pattern (float.hex() says 'nan' for every NaN)
     import datetime as _dtm
     if isinstance(v, _dtm.datetime):
         return ("datetime", v.isoformat(), None if v.utcoffset() is None else v.utcoffset().total_seconds(), v.fold)
